@@ -31,13 +31,15 @@ fn find_stmt<'a>(stmts: &'a [Stmt], id: Id) -> Option<&'a Stmt> {
 }
 
 pub fn case(tape: &[u32]) -> CaseOutcome {
-    let mut t = Tape::new(tape);
+    let (aux, main) = split_tape(tape);
+    let mut t = Tape::new(&aux);
+    let mut gt = Tape::new(&main);
     let mut cfg = GenCfg::fragment();
     cfg.fault = true;
     cfg.risk = 0;
     cfg.prints = false;
     cfg.max_stanzas = 5;
-    let program = make_program(&mut t, &cfg);
+    let program = make_program(&mut gt, &cfg);
     let dsl = &program.printed.text;
     let locs = &program.printed.locs;
     // trees with many matches
@@ -278,7 +280,7 @@ pub fn outer_context(err: &ExecutionError) -> OuterContext {
 }
 
 pub fn spec(tier: &str) -> Spec {
-    let mut s = Spec::new("C20", tier, 6_000, 80_000, 700);
+    let mut s = Spec::new("C20", tier, 6_000, 80_000, 1200);
     s.rule = "valid generated programs (risky choices switched off) with exactly one run-time fault from the catalogue (type errors, unknown function, conflicting attribute, duplicate / undefined scoped variable, undefined edge, bad regex capture, format arity, overflow, failing call inside a list, free variable in a shorthand) injected at a random statement position and block depth, on trees with many matches; cases where the fault is not reached or another statement fails first are discarded. Both modes. Oracle: the reference interpreter's first failure site. The error must be InContext(Statement ..): stanza location = start of that stanza's query, node kind / position = the node the stanza matched when the fault fired (strict: that match; lazy: any match of the stanza), statement location = the failing statement (strict) or the failing statement, one nested in the fault construct or one enclosing it (lazy); lazy conflicts carry two statement contexts; display_pretty contains the cited DSL lines and the source line. Non-trivial: fault at block depth >= 1, or in stanza >= 2, or firing first in match >= 2. Distinct = fingerprint of (DSL text, source).".into();
     s.assumptions = vec!["statement, stanza and variable locations are those recorded by the harness's printer (cross-checked against the parser by C07)".into()];
     s
